@@ -72,7 +72,7 @@ class AsyncWorld:
 
     def enabled_events(self):
         evs = []
-        if self.loop.conn_requests:
+        if self.loop.live_requests():
             evs += [("conn", "ok"), ("conn", "refuse")]
             if self.kind == "tcp":
                 evs.append(("conn", "stall"))
@@ -80,7 +80,7 @@ class AsyncWorld:
             evs.append(("timer",))
         link = self.live_link()
         if link is not None and not link.closed:
-            evs += [("lost", "error"), ("data",), ("send",)]
+            evs += [("lost", "error"), ("data",), ("send",), ("send-fail",)]
             if self.kind == "tcp":
                 evs.append(("lost", "eof"))  # orderly close by the peer; a serial port has no such thing
         if not self.stopped:
@@ -110,7 +110,7 @@ class AsyncWorld:
             if kind == "conn":
                 self.seen_requests += 1
                 if ev[1] == "stall":
-                    fut, factory, k, args = loop.conn_requests.pop(0)
+                    fut, factory, k, args = loop.live_requests().pop(0)
                     self.stalled.append(fut)
                     self.attempt_results.append((loop.time(), "stalled"))
                 else:
@@ -135,6 +135,13 @@ class AsyncWorld:
                 loop.call(link.protocol.data_received, VERSION_REPLY)
                 loop.run_ready()
             elif kind == "send":
+                loop.call(self.gw.send, "1;0;1;0;2;1\n")
+                loop.run_ready()
+            elif kind == "send-fail":
+                # the next write on the link raises (device error): the library closes the link and re-dials
+                link = self.live_link()
+                link.fail_next_write = OSError("write failed (harness)")
+                self.unrequested_losses += 1
                 loop.call(self.gw.send, "1;0;1;0;2;1\n")
                 loop.run_ready()
             elif kind == "disconnect":
@@ -170,7 +177,7 @@ class AsyncWorld:
         tree = (
             canon.walk(self.gw, skip_attrs=("_world", "tcp_check_timer", "tcp_disconnect_timer")),
             ("timers", tuple(round(t - now, 6) for t in loop.pending_timers())),
-            ("requests", len(loop.conn_requests), len([f for f in self.stalled if not f.done()])),
+            ("requests", len(loop.live_requests()), len([f for f in self.stalled if not f.done()])),
             ("links", tuple(t.verif_state() for t in loop.links_made if not t.lost_reported)),
             ("counts", len(self.made), len(self.lost), len(loop.links_made), len(self.links_ended())),
             ("flags", self.user_disconnected, self.stopped, self.deviations, self.unrequested_losses),
